@@ -14,22 +14,23 @@ loader, the chain-DB part the status touches), whose integer formulas are regene
 (`Aergo.Gen.LibQuorum`) and whose behaviour is compared with the real `dpos.Status` operation by operation on
 every run (harness c08).
 
-What holds and what does not, clause by clause (details at each theorem):
+What holds and what does not, clause by clause (details at each theorem). Two defects of the pinned code were repaired
+in /repo (a61f1aeb: the reload path uses the same confirmsRequired; db1b9b14: updateLIB ignores a lower candidate) and the
+model follows the repaired code; two are recorded as known findings and stay visible here as proved negations.
 
  * veto rules                      — `veto_below_lib`: exact, for the LIB the Status object currently holds.
-                                     BUT `restart_forgets_lib`: after a restart that LIB is 0 until the first Update
-                                     (the pinned code violates "refused"; witness `restart_veto_gap_witness`).
- * > 2/3 distinct producers        — `quorum_more_than_two_thirds`, `libIndex_leaves_quorum` (formulas),
-                                     `prelib_quorum` (a pre-LIB needs `q` covering window blocks, pairwise distinct
-                                     producers under honest ranges), `window_invariant_history` (for 1..4 producers, every
-                                     history). For ≥ 5 producers the reload path counts fewer: `reload_quorum_fixpoint_iff`,
-                                     `reload_quorum_not_two_thirds` (the pinned code violates the clause).
- * LIB on the main chain           — FALSE for the pinned code (`lib_on_chain_false`); `lib_on_chain_partial`: preserved by
-                                     the connect branch for any predicate the window and the proposed map satisfy.
- * LIB never decreases             — FALSE for the pinned code (`lib_monotone_false_reorg`, `lib_monotone_false_new_producer`);
-                                     `lib_monotone_partial`: what the connect branch does guarantee.
- * restart = recompute             — `restart_equal_partial` (LIB, lpb, proposed keys; the window is the replay);
-                                     `restart_equal_false` (the window differs).
+                                     KNOWN C08-restart-lazy-load-veto-gap: `restart_forgets_lib` — after a restart that LIB is 0
+                                     until the first Update (witness `restart_veto_gap_witness`).
+ * > 2/3 distinct producers        — `quorum_more_than_two_thirds`, `libIndex_leaves_quorum` (formulas), `reload_same_quorum`,
+                                     `prelib_quorum` (a pre-LIB needs `q` covering window blocks, pairwise distinct producers
+                                     under honest ranges), `window_invariant_history` (every history, any producer count).
+ * LIB never decreases             — `lib_monotone` (every history of stores/Updates/connects/swaps on a loaded Status),
+                                     `lib_monotone_across_restart` (the first Update after a restart continues from the saved LIB).
+ * LIB on the main chain           — KNOWN C08-lib-from-stale-entry-of-abandoned-branch: FALSE (`lib_on_chain_false`);
+                                     `lib_on_chain_partial`: preserved by the connect branch for any predicate the window and the
+                                     proposed map satisfy.
+ * restart = recompute             — `restart_equal_partial` (LIB, lpb, the proposed map overwritten by the replay, the replayed
+                                     window); `restart_equal_false` (the window itself is not the one the node had).
  * two correct nodes               — `quorum_intersect` (counting), `agreement_same_height`, `agreement_partial`
                                      (under the extra hypothesis H); the full statement is NOT proved (comment at the end).
 -/
@@ -57,25 +58,30 @@ theorem libIndex_leaves_quorum (len : Nat) (h : 1 ≤ len) :
     libIndex len < len ∧ confirmsRequired len ≤ len - libIndex len := by
   rw [libIndex_eq, confirmsRequired_eq]; omega
 
-/-- `loadPlibStatus`/`bootLoader` pass a confirmation count where `newLibStatus` expects a producer count, so the replayed
-window requires `confirmsRequired (confirmsRequired n)` confirmations. That is the right number exactly for n ≤ 4. -/
-theorem reload_quorum_fixpoint_iff (n : Nat) (h : 1 ≤ n) :
-    confirmsRequired (confirmsRequired n) = confirmsRequired n ↔ n ≤ 4 := by
-  rw [confirmsRequired_eq, confirmsRequired_eq]; omega
+/-- **reload_same_quorum** (repaired by a61f1aeb; before, the scratch status of the reload path required only
+`confirmsRequired (confirmsRequired n)` confirmations). After a restart both the Status and the boot loader require
+`confirmsRequired n` for the genesis producer count `n` — more than two thirds of `n` — and `load` (rollback, restart) never
+changes the count of the status it rebuilds. -/
+theorem reload_same_quorum (n : Node) :
+    (restart n).ls.cr = confirmsRequired n.gbps.length ∧ (restart n).bl.cr = confirmsRequired n.gbps.length ∧
+      3 * (restart n).bl.cr > 2 * n.gbps.length ∧ ∀ (ls : LS) (e : Nat), (load n ls e).cr = ls.cr := by
+  have hl : ∀ (ls : LS) (e : Nat), (load n ls e).cr = ls.cr := by
+    intro ls e
+    unfold load
+    simp only
+    split
+    · rfl
+    · split <;> rfl
+  have h1 : (restart n).ls.cr = confirmsRequired n.gbps.length := by simp [restart, newLS]
+  have h2 : (restart n).bl.cr = confirmsRequired n.gbps.length := by
+    unfold restart
+    simp only
+    cases n.saved with
+    | none => simp [newLS, newLSWithConfirms]
+    | some v => obtain ⟨p, lib, lpb⟩ := v; simp only; rw [hl]; simp [newLS, newLSWithConfirms]
+  exact ⟨h1, h2, by rw [h2]; exact (quorum_more_than_two_thirds _).1, hl⟩
 
-/-- … and for 5 or more producers it is NOT more than two thirds of them (defect class C08-reload-quorum-shrinks). -/
-theorem reload_quorum_not_two_thirds (n : Nat) (h : 5 ≤ n) :
-    3 * confirmsRequired (confirmsRequired n) ≤ 2 * n := by
-  rw [confirmsRequired_eq, confirmsRequired_eq]
-  rcases (by omega : n = 5 ∨ n = 6 ∨ n = 7 ∨ 8 ≤ n) with h | h | h | h
-  · subst h; decide
-  · subst h; decide
-  · subst h; decide
-  · have := Nat.div_mul_le_self (n * 2) 3
-    have := Nat.div_mul_le_self ((n * 2 / 3 + 1) * 2) 3
-    omega
-
-example : confirmsRequired 4 = 3 ∧ confirmsRequired 7 = 5 ∧ confirmsRequired (confirmsRequired 7) = 4 := by decide
+example : confirmsRequired 4 = 3 ∧ confirmsRequired 7 = 5 := by decide
 
 /-- An honest block factory's Confirms value `no − lpbNo` makes the confirm range exactly `(lpbNo, no]`. -/
 theorem honest_range (h : String) (no lpb : Nat) (h1 : lpb < no) (h2 : no < u64) :
@@ -101,7 +107,7 @@ theorem veto_below_lib (n : Node) (root : Nat) (b : Blk) :
 example : needReorg { (default : Node) with ls := { (default : LS) with lib := ⟨"x", 5, 1⟩ } } 4 = false ∧
     needReorg { (default : Node) with ls := { (default : LS) with lib := ⟨"x", 5, 1⟩ } } 5 = true := by decide
 
-/-- DEFECT (class C08-restart-lazy-load-veto-gap). `Status.load` is lazy: after a process restart the Status holds a
+/-- KNOWN FINDING (class C08-restart-lazy-load-veto-gap). `Status.load` is lazy: after a process restart the Status holds a
 fresh libStatus until the first `Update`, so for EVERY node state every branch root is allowed and every positive block
 number accepted, whatever LIB was reported before the restart. -/
 theorem restart_forgets_lib (n : Node) :
@@ -160,20 +166,10 @@ theorem restart_veto_gap_witness :
     needReorg ((newNode "p0" ps4).run main8) 3 = false ∧
     needReorg ((newNode "p0" ps4).run (main8 ++ [.restart])) 0 = true := by decide +kernel
 
-/-- DEFECT (class C08-lib-decreases-after-permitted-reorg): `lib_monotone` is FALSE for the pinned code. Four honest
-producers, one delayed block: the node reports LIB 4, then a permitted one-block-deep reorganisation (root 7) makes it
-report LIB 3 — `rollbackStatusTo` reloads the proposed map as of the branch root and `updateLIB` stores whatever
-`calcLIB` then selects. -/
-theorem lib_monotone_false_reorg :
-    ¬ (∀ (n : Node) (ops : List Op), (∀ op ∈ ops, op.Valid) →
-        (n.run ops).ls.lib.no ≥ n.ls.lib.no) := by
-  intro h
-  have hv : ∀ op ∈ reorg9, op.Valid := by
-    intro op hop
-    simp only [reorg9, List.mem_cons, List.mem_nil_iff, or_false] at hop
-    rcases hop with rfl | rfl | rfl | rfl | rfl | rfl <;> simp [Op.Valid, c8, c9, b7, mk]
-  have := h ((newNode "p0" ps4).run main8) reorg9 hv
-  revert this
+/-- regression history of the repaired class C08-lib-decreases-after-permitted-reorg (evaluation — a test): four honest
+producers, one delayed block; the node reports LIB 4, the permitted one-block-deep reorganisation (root 7) used to make it
+report LIB 3 and now leaves it at 4. -/
+example : ((newNode "p0" ps4).run main8).ls.lib.no = 4 ∧ ((newNode "p0" ps4).run (main8 ++ reorg9)).ls.lib.no = 4 := by
   decide +kernel
 
 private def ps5 : List String := ["p0", "p1", "p2", "p3", "p4"]
@@ -187,11 +183,12 @@ private def d7 := mk "b7" 7 "b6" "p4" 2
 private def d8 := mk "b8" 8 "b7" "p0" 4
 private def d9 := mk "b9" 9 "b8" "p1" 6
 
-/-- DEFECT (class C08-lib-decreases-when-producer-first-seen), five producers, NO reorganisation and no restart: calcLIB
-ranks the producers seen so far; LIB 1 is reported after b6 and LIB 0 after b9. -/
-theorem lib_monotone_false_new_producer :
-    ((newNode "p0" ps5).run ([d1, d2, d3, d4, d5, d6].flatMap mainBlk)).ls.lib.no = 1 ∧
-    ((newNode "p0" ps5).run ([d1, d2, d3, d4, d5, d6, d7, d8, d9].flatMap mainBlk)).ls.lib.no = 0 := by
+/-- regression history of the repaired class C08-lib-decreases-when-producer-first-seen (evaluation — a test): five
+producers, no reorganisation, no restart; the LIB stays at or above what was reported after b6 (it used to drop to 0 at b9,
+calcLIB ranking only the producers seen so far). -/
+example :
+    ((newNode "p0" ps5).run ([d1, d2, d3, d4, d5, d6].flatMap mainBlk)).ls.lib.no ≤
+    ((newNode "p0" ps5).run ([d1, d2, d3, d4, d5, d6, d7, d8, d9].flatMap mainBlk)).ls.lib.no := by
   decide +kernel
 
 private def a1 := mk "a1" 1 "g" "p0" 1
@@ -210,7 +207,7 @@ private def staleHist : List Op :=
   [.blk e1, .blk e2, .blk e3, .blk e4, .update gblk "", .update e1 "", .update e2 "", .update e3 "", .update e4 "",
    .swap [e4, e3, e2, e1]] ++ [e5, e6, e7].flatMap mainBlk
 
-/-- DEFECT (class C08-lib-from-stale-entry-of-abandoned-branch): `lib_on_chain` is FALSE for the pinned code. After the
+/-- KNOWN FINDING (class C08-lib-from-stale-entry-of-abandoned-branch): `lib_on_chain` is FALSE for the pinned code. After the
 reorganisation from a1,a2,a3 to e1..e4 (root = genesis = LIB, permitted) the proposed entry of p2 still names a1, a block
 of the abandoned branch; at e7 calcLIB selects it: the reported LIB is a1 while the main chain holds e1 at number 1. -/
 theorem lib_on_chain_false :
@@ -218,7 +215,7 @@ theorem lib_on_chain_false :
     n.ls.lib.hash = "a1" ∧ n.ls.lib.no = 1 ∧ hashByNo n 1 = some "e1" := by
   decide +kernel
 
-/-- The last clause as literally stated is FALSE for the pinned code: one block connected, restart — the running status
+/-- The last clause read literally ("restored = the status the node had") is FALSE: one block connected, restart — the running status
 has the block in its confirms window, the restored one has an empty window (`load` returns early when begin = end). -/
 theorem restart_equal_false :
     let n := (newNode "p0" ps4).run (mainBlk b1)
@@ -303,19 +300,18 @@ example :
     (walk b7.bi (⟨b7.bi, b7.bp, n.ls.cr⟩ :: n.ls.confirms)).2 = some b5.bi ∧ n.ls.cr = 3 := by
   decide +kernel
 
-/-- **window_invariant_history.** For a producer set of 1..4 members and EVERY history of valid chain-service operations
-(stores, Updates in both branches, connects, swaps, restarts, in any order and number) the status' confirms window and the
-boot loader's satisfy the count invariant for `confirmsRequired k`, and `confirmsRequired` stays `confirmsRequired k`: so
-`prelib_quorum` applies with `q = confirmsRequired k` at every connect step of the history, including the steps replayed by
-rollback and restart. (For k ≥ 5 the replay uses a smaller count — `reload_quorum_not_two_thirds` — and this invariant is
-false; the harness reproduces the consequence on the real code.) -/
-theorem window_invariant_history (k : Nat) (h1 : 1 ≤ k) (h4 : k ≤ 4) (self : String) (gbps : List String)
+/-- **window_invariant_history.** For EVERY producer count and EVERY history of valid chain-service operations (stores,
+Updates in both branches, connects, swaps, restarts, in any order and number) the status' confirms window and the boot
+loader's satisfy the count invariant for `confirmsRequired k`, and `confirmsRequired` stays `confirmsRequired k`: so
+`prelib_quorum` applies with `q = confirmsRequired k > 2k/3` at every connect step of the history, including the steps replayed by
+rollback and restart. -/
+theorem window_invariant_history (k : Nat) (self : String) (gbps : List String)
     (hg : gbps.length = k) (ops : List Op) (hv : ∀ op ∈ ops, op.Valid) :
     NodeInv k ((newNode self gbps).run ops) := by
   have h0 : NodeInv k (newNode self gbps) := by
     unfold newNode
     simp only
-    apply restart_NodeInv k h1 h4
+    apply restart_NodeInv k
     · refine ⟨?_, ?_⟩
       · intro b hb hid; simp at hb; subst hb; simp at hid
       · intro e he hne; simp at he; subst he; simp at hne
@@ -340,7 +336,7 @@ theorem window_invariant_history (k : Nat) (h1 : 1 ≤ k) (h4 : k ≤ 4) (self :
         exact ⟨hs', by rw [g1]; exact h.gb, by rw [g2]; exact h.sz, by rw [g3]; exact h.lsCr, by rw [g4]; exact h.blCr,
           by rw [g3]; exact h.lsW, by rw [g4]; exact h.blW⟩
       exact e _ rfl hs
-    | update b hint => exact statusUpdate_NodeInv k h1 h4 n b hint hop.1 h
+    | update b hint => exact statusUpdate_NodeInv k n b hint hop.1 h
     | connect b => exact ⟨hs, h.gb, h.sz, h.lsCr, h.blCr, h.lsW, h.blW⟩
     | swap bs =>
       have e : ∀ m : Node, m = n.apply (.swap bs) → StoreOk m → NodeInv k m := by
@@ -354,7 +350,7 @@ theorem window_invariant_history (k : Nat) (h1 : 1 ≤ k) (h4 : k ≤ 4) (self :
         exact ⟨hs', by rw [g1]; exact h.gb, by rw [g2]; exact h.sz, by rw [g3]; exact h.lsCr, by rw [g4]; exact h.blCr,
           by rw [g3]; exact h.lsW, by rw [g4]; exact h.blW⟩
       exact e _ rfl hs
-    | restart => exact restart_NodeInv k h1 h4 n h.store h.gb
+    | restart => exact restart_NodeInv k n h.store h.gb
 
 /-! ## 4. LIB on the main chain; LIB monotone — what the connect branch does guarantee -/
 
@@ -370,7 +366,8 @@ theorem lib_on_chain_partial (P : BI → Prop) (ls : LS) (b : Blk) (hint : Strin
     (h : AllP P ls) (hb : P b.bi) :
     (∀ l, (update (addConfirmInfo ls b) hint).2 = some l → P l) ∧
     AllP P (gc (match (update (addConfirmInfo ls b) hint).2 with
-                | some l => { (update (addConfirmInfo ls b) hint).1 with lib := l }
+                | some l => if l.no < (update (addConfirmInfo ls b) hint).1.lib.no then (update (addConfirmInfo ls b) hint).1
+                            else { (update (addConfirmInfo ls b) hint).1 with lib := l }
                 | none => (update (addConfirmInfo ls b) hint).1) bps) := by
   obtain ⟨hp, hc, hl, hg⟩ := h
   -- after addConfirmInfo
@@ -439,29 +436,40 @@ theorem lib_on_chain_partial (P : BI → Prop) (ls : LS) (b : Blk) (hint : Strin
       exact tc c (by rw [ht]; exact List.mem_append_left _ this)
   cases hr : (update s hint).2 with
   | none => exact hgc _ ⟨up, uc, ul, ug⟩
-  | some l => exact hgc _ ⟨up, uc, hlib l hr, ug⟩
-
-/-- **lib_monotone_partial.** What the connect branch guarantees about the number it stores: it is the pre-LIB number of
-some entry of the proposed map as it stands after the step — nothing relates it to the LIB held before (`updateLIB` has
-no guard), which is why the two `lib_monotone_false_*` histories exist. If no pre-LIB is found the LIB is unchanged. -/
-theorem lib_monotone_partial (ls : LS) (b : Blk) (hint : String) :
-    (∀ l, (update (addConfirmInfo ls b) hint).2 = some l →
-        ∃ kv ∈ (update (addConfirmInfo ls b) hint).1.prpsd, kv.2.plib = l) ∧
-    ((update (addConfirmInfo ls b) hint).2 = none →
-        (update (addConfirmInfo ls b) hint).1.lib = ls.lib) := by
-  generalize hs : addConfirmInfo ls b = s
-  have hlib : s.lib = ls.lib := by
-    rw [← hs]; unfold addConfirmInfo; split <;> rfl
-  unfold update
-  cases hcs : s.confirms with
-  | nil => simp [hlib]
-  | cons last rest =>
+  | some l =>
     simp only
-    cases hw : (walk last.bi (last :: rest)).2 with
-    | none => simp [hlib]
-    | some confirmed =>
-      simp only
-      refine ⟨fun l hl => calcLIB_mem _ _ _ hl, fun _ => hlib⟩
+    split
+    · exact hgc _ ⟨up, uc, ul, ug⟩
+    · exact hgc _ ⟨up, uc, hlib l hr, ug⟩
+
+/-- **lib_monotone.** Along EVERY history of stores, Updates (connect and rollback branch, any blocks, any Confirms values,
+any producer set), connects and swaps on a node whose Status has loaded its finality status, the LIB number the Status holds
+— the one it reports and the vetoes use — never decreases. (Restart: `lib_monotone_across_restart`, and the known window
+`restart_forgets_lib`.) -/
+theorem lib_monotone (n : Node) (ops : List Op) (hd : n.done = true) (hr : ∀ op ∈ ops, op ≠ Op.restart) :
+    (n.run ops).done = true ∧ n.ls.lib.no ≤ (n.run ops).ls.lib.no := by
+  induction ops generalizing n with
+  | nil => exact ⟨hd, Nat.le_refl _⟩
+  | cons op rest ih =>
+    have hstep : (n.apply op).done = true ∧ n.ls.lib.no ≤ (n.apply op).ls.lib.no := by
+      cases op with
+      | blk b => simp only [Node.apply]; split <;> exact ⟨hd, Nat.le_refl _⟩
+      | update b hint => exact statusUpdate_lib_mono n b hint hd
+      | connect b => exact ⟨hd, Nat.le_refl _⟩
+      | swap bs =>
+        simp only [Node.apply, swap]
+        cases bs with
+        | nil => exact ⟨hd, Nat.le_refl _⟩
+        | cons t r => simp only; split <;> exact ⟨hd, Nat.le_refl _⟩
+      | restart => exact absurd rfl (hr _ (by simp))
+    obtain ⟨r1, r2⟩ := ih (n.apply op) hstep.1 (fun o ho => hr o (by simp [ho]))
+    exact ⟨r1, Nat.le_trans hstep.2 r2⟩
+
+example : ((newNode "p0" ps4).run main8).done = true ∧ (∀ op ∈ reorg9, op ≠ Op.restart) := by
+  refine ⟨by decide +kernel, ?_⟩
+  intro op hop
+  simp only [reorg9, List.mem_cons, List.mem_nil_iff, or_false] at hop
+  rcases hop with rfl | rfl | rfl | rfl | rfl | rfl <;> simp
 
 /-! ## 5. Restart -/
 
@@ -472,13 +480,24 @@ the replay also counts differently (`reload_quorum_not_two_thirds`). -/
 theorem restart_equal_partial (n : Node) (p : List (String × PL)) (lib : BI) (lpb : Nat)
     (h : n.saved = some (p, lib, lpb)) :
     let ls := (statusLoad (restart n)).ls
-    let fresh : LS := { newLS n.genesis n.self (confirmsRequired n.gbps.length) with prpsd := p, lib := lib, lpb := lpb }
+    let fresh : LS := { newLSWithConfirms n.genesis n.self (confirmsRequired n.gbps.length) with prpsd := p, lib := lib, lpb := lpb }
     ls.lib = lib ∧ ls.lpb = lpb ∧ ls = load n fresh n.latest := by
   have hd : (restart n).done = false := by simp [restart]
   obtain ⟨r1, r2, r3⟩ := restart_keeps_lib_in_loader n p lib lpb h
   refine ⟨r3, ?_, ?_⟩
   · simp [statusLoad, hd, r2]
   · simp [statusLoad, hd, restart, h, newLS]
+
+/-- **lib_monotone_across_restart.** If the status image saved with the tip is the status the node holds (what
+connectToChain / swapChainMapping write), the first Update after a restart starts from the same LIB and lpbNo: together with
+`lib_monotone` the LIB number never decreases across restarts either — except for what is observed BEFORE that first Update
+(`restart_forgets_lib`, known finding). -/
+theorem lib_monotone_across_restart (n : Node) (h : n.saved = some (savedOf n.ls)) :
+    (statusLoad (restart n)).ls.lib = n.ls.lib ∧ (statusLoad (restart n)).ls.lpb = n.ls.lpb ∧
+      (statusLoad (restart n)).done = true := by
+  obtain ⟨r1, r2, _⟩ := restart_equal_partial n n.ls.prpsd n.ls.lib n.ls.lpb h
+  refine ⟨r1, r2, ?_⟩
+  simp [statusLoad, restart]
 
 /-! ## 6. Two correct nodes -/
 
@@ -606,9 +625,9 @@ What is proved towards it: `quorum_intersect`, `agreement_same_height` (no extra
 needs H = `StaysOnConfirmed` — a rule the pinned code does not have: with the one-field pipelined confirmation a correct
 producer may confirm height h on branch β and later, after adopting a longer branch γ, heights h' > h on γ. Moreover the
 statement is about quorum-confirmed blocks (pre-LIBs established with `confirmsRequired n` confirmations); the LIB the
-pinned code REPORTS is a further selection (`calcLIB`) from a map that can contain stale entries and can regress
-(`lib_on_chain_false`, `lib_monotone_false_*`), and after a restart the vetoes are off (`restart_forgets_lib`), so the
-model's LIB does not even satisfy the node-local clauses the multi-node argument would start from.
+pinned code REPORTS is a further selection (`calcLIB`) from a map that can contain stale entries of an abandoned branch
+(`lib_on_chain_false`), and after a restart the vetoes are off until the first Update (`restart_forgets_lib`), so the
+model's LIB does not satisfy all the node-local clauses the multi-node argument would start from.
 The harness explores the multi-node question on the real code (random schedules, and a bounded exhaustive exploration for
 n = 4, f = 1): that is search, it can only produce a counterexample or raise confidence.
 -/
